@@ -252,34 +252,83 @@ def main_c13(tier, seed):
             nviol += 1
             if nviol <= 3:
                 rep.violation("clustering (%s): %s" % (flavour, msg), d, key="clustering:" + flavour)
-    # end-to-end fits: the oracle on the objects users get
+    # end-to-end fits: the objects users get. (a) oracle; (b) correspondence with the model of the final stage
+    #   destroy_arcs; create_arcs(best_k); calculate_pdf(best_k); _clustering(...)   run entirely in PrimFloat
+    from opfython.subgraphs import KNNSubgraph
     nfit = 60 if tier == "quick" else 1500
     fit_ok = 0
+    fterms, fexpect, fdescs = [], [], []
+    orig_create = KNNSubgraph.create_arcs
     for idx in range(nfit):
-        it = gen_kinst(rng, nmin=4, nmax=10, labelled=True)
+        which = "unsup" if idx % 2 == 0 else "knn"
+        it = gen_kinst(rng, nmin=4, nmax=10, labelled=True) if which == "unsup" else gen_split_inst(rng, nmax=11)
         n = it.n
-        d = it.desc()
+        d = it.desc(); d["flavour"] = which + "_fit"
+        calls = []
+
+        def rec_create(self, k, *a, **kw):
+            calls.append((int(k), float(self.density)))
+            return orig_create(self, k, *a, **kw)
+        KNNSubgraph.create_arcs = rec_create
         try:
-            if idx % 2 == 0:
+            if which == "unsup":
                 opf, X, I = make_knn_model(it, UnsupervisedOPF, min_k=1, max_k=rng.randint(1, min(4, n - 1)))
                 opf.fit(X[:n].copy(), np.array(it.labels), None if I is None else I[:n])
-                st = knn_state(opf.subgraph)
-                if any(v != v for v in st["dens"]):
-                    continue
-                k = opf.subgraph.best_k
-                adjv = [a[:st["nplat"][i] + k] for i, a in enumerate(st["adj"])]
-                msg = oracle_cluster(st, adjv, st["dens"], [v - 1 for v in st["dens"]], it.labels, True, st["nclusters"])
-                d["flavour"] = "unsup_fit"
+                tr = list(range(n))
             else:
-                continue  # KNN-supervised end-to-end fits are exercised in C04/C16 (destroy_arcs drops the adjacency needed here)
+                opf, tr = fit_knn_models(rng, it, "knn")
+            err = None
         except Exception as ex:
-            msg = "fit raised " + repr(ex)
+            err = repr(ex)
+        finally:
+            KNNSubgraph.create_arcs = orig_create
+        if err:
+            nviol += 1
+            if nviol <= 3:
+                rep.violation("%s fit raised %s" % (which, err), d, key="clustering:%s_fit" % which)
+            continue
+        sg = opf.subgraph
+        st = knn_state(sg)
+        if any(v != v for v in st["dens"] + st["cost"]):
+            continue
+        k = int(sg.best_k)
+        nt = len(tr)
+        Dt = [[it.D[tr[a]][tr[b]] for b in range(nt)] for a in range(nt)]
+        labels_t = [it.labels[a] for a in tr]
+        d["best_k"] = k
         fit_ok += 1
-        rep.count_case((it.key(), "fit"), True)
+        rep.count_case((it.key(), "fit", which), True)
+        # (a) oracle
+        nk = lambda p: [j for (_, j) in sorted((Dt[p][j], j) for j in range(nt) if j != p)[:k]]
+        nbr = [nk(p) for p in range(nt)]
+        msg = None
+        if which == "unsup":
+            adjv = [a[:st["nplat"][i] + k] for i, a in enumerate(st["adj"])]
+            msg = oracle_cluster(st, adjv, st["dens"], [v - 1 for v in st["dens"]], labels_t, True, st["nclusters"])
+        else:
+            allowed = [set(nbr[p]) | {q for q in range(nt) if st["dens"][q] == st["dens"][p] and p in nbr[q]} for p in range(nt)]
+            msg = oracle_cluster(st, allowed, st["dens"], [v - 1 for v in st["dens"]], labels_t, False, None)
+            if not msg and st["plabel"] != labels_t:
+                msg = "KNN-supervised fit: some training sample does not carry its own label"
+        if not msg and calls and calls[-1][0] != k:
+            msg = "the final arcs were created with k=%d but best_k=%d" % (calls[-1][0], k)
         if msg:
             nviol += 1
             if nviol <= 3:
-                rep.violation("UnsupervisedOPF.fit: " + msg, d, key="clustering:unsup_fit")
+                rep.violation("%s.fit: %s" % (which, msg), d, key="clustering:%s_fit" % which)
+        # (b) model of the final stage
+        const = float(sg.constant)
+        if const == 0.0 or not calls:
+            continue
+        E = [float(np.exp(-np.float64(Dt[a][b]) / const)) for a in range(nt) for b in range(nt)]
+        fterms.append("run_knn_fit_final %d %d %d %s %s %s %s" % (0 if which == "unsup" else 1, nt, k, flit(calls[-1][1]), zlist(labels_t),
+                                                                flist([v for r in Dt for v in r]), flist(E)))
+        fexpect.append([const, float(sg.min_density), float(sg.max_density), float(st["nclusters"])] + st["dens"] + st["cost"]
+                       + [float(v) for v in st["pred"]] + [float(v) for v in st["root"]] + [float(v) for v in st["plabel"]] + [float(v) for v in st["clabel"]])
+        fdescs.append(d)
+    badf, _ = corr_generic(rep, "correspondence: model of the final training stage (create_arcs(best_k) -> calculate_pdf -> _clustering, PrimFloat end to end) vs the fitted KNNSupervisedOPF / UnsupervisedOPF objects",
+                           "C13fit", fterms, fexpect, fdescs, typ="list float", cmp=flists_eq)
+    rep.corr["fit_final"] = dict(cases=len(fterms), disagreements=None if badf is None else len(badf))
     bad, _ = corr_generic(rep, "correspondence Model/Knn.clustering_sup / clustering_unsup vs the two _clustering routines (adjacency after plateau step, n_plateaus, cost, pred, root, labels, cluster ids, removal order, n_clusters, propagate_labels)", "C13", terms, expect, descs)
     rep.corr["clustering"] = dict(cases=len(terms), disagreements=None if bad is None else len(bad), flavours=flavours, end_to_end_fits=fit_ok)
     rep.extra["oracle_violations"] = nviol
